@@ -23,17 +23,19 @@ fn model(pattern: u32, off: u32) -> Grid {
     g
 }
 
-fn build(fmt: &str, g: &Grid) -> Vec<u8> {
+/// `stale`: the sheet's advisory dimension record (xlsx `<dimension>`, xlsb BrtWsDim) names only the first used row
+fn build(fmt: &str, g: &Grid, stale: bool) -> Vec<u8> {
     match fmt {
         "xlsx" => {
             let mut book = xlsx::XBook::default();
             let cells = g.iter().map(|((r, c), v)| xlsx::XCell::new(*r, *c, match v { Data::Float(f) => xlsx::XVal::Num(format!("{f}")), Data::String(s) => xlsx::XVal::InlineStr(xlsx::XText::plain(s)), _ => xlsx::XVal::None })).collect();
             book.sheets.push(xlsx::XSheet::new("S", cells));
-            xlsx::write(&book, &xlsx::XEnc::default())
+            xlsx::write(&book, &xlsx::XEnc { dim: if stale { xlsx::DimMode::StaleRows } else { xlsx::DimMode::Exact }, ..Default::default() })
         }
         "xlsb" => {
             let items = g.iter().map(|((r, c), v)| xlsb::BItem::Cell { row: *r, col: *c, style: 0, val: match v { Data::Float(f) => xlsb::BVal::Real(*f), Data::String(s) => xlsb::BVal::St(s.clone()), _ => xlsb::BVal::Blank } }).collect();
-            xlsb::write(&xlsb::BBook { sheets: vec![xlsb::BSheet::new("S", items)], ..Default::default() }, Method::Deflated)
+            let mut sh = xlsb::BSheet::new("S", items); sh.stale_dim = stale;
+            xlsb::write(&xlsb::BBook { sheets: vec![sh], ..Default::default() }, Method::Deflated)
         }
         "xls" => {
             let cells = g.iter().map(|((r, c), v)| match v { Data::Float(f) => biff8::BCell::Number { r: *r as u16, c: *c as u16, xf: 0, v: *f }, Data::String(s) => biff8::BCell::Label { r: *r as u16, c: *c as u16, xf: 0, text: s.clone(), wide: false }, _ => biff8::BCell::Blank { r: *r as u16, c: *c as u16, xf: 0 } }).collect();
@@ -122,17 +124,17 @@ pub fn check(rep: &Report) {
     if t { for a in &opts { for b in &opts { for c in &opts { hists.push(vec![*a, *b, *c]); } } } }
     else { for a in small { for b in small { for c in small { hists.push(vec![a, b, c]); } } } }
     let mut jobs = vec![];
-    for f in FORMATS { for p in 0..32u32 { for off in [0u32, 2] { jobs.push((f, p, off)); } } }
+    for f in FORMATS { for p in 0..32u32 { for off in [0u32, 2] { for stale in [false, true] { if stale && (f == "xls" || f == "ods") { continue; } jobs.push((f, p, off, stale)); } } } }
     let nh = hists.len() as u64;
-    jobs.par_iter().for_each(|(fmt, p, off)| {
+    jobs.par_iter().for_each(|(fmt, p, off, stale)| {
         let g = model(*p, *off);
-        let bytes = build(fmt, &g);
+        let bytes = build(fmt, &g, *stale);
         let mut local = vec![];
         for h in &hists {
-            crate::engine::crumb::set_case(&format!("C08 format={fmt} rows={p:05b} col_offset={off} history={h:?}"));
+            crate::engine::crumb::set_case(&format!("C08 format={fmt} rows={p:05b} col_offset={off} stale_dimension={stale} history={h:?}"));
             rep.eval(1);
             let res = guarded(|| match *fmt { "xlsx" => run_history::<Xlsx<_>>(&bytes, h), "xlsb" => run_history::<Xlsb<_>>(&bytes, h), "xls" => run_history::<Xls<_>>(&bytes, h), _ => run_history::<Ods<_>>(&bytes, h) });
-            let replay = || Replay { json: json!({"format": fmt, "row_pattern": p, "col_offset": off, "history": h.iter().map(|o| format!("{o:?}")).collect::<Vec<_>>()}), files: vec![(fmt.to_string(), bytes.clone())] };
+            let replay = || Replay { json: json!({"format": fmt, "row_pattern": p, "col_offset": off, "stale_dimension": stale, "history": h.iter().map(|o| format!("{o:?}")).collect::<Vec<_>>()}), files: vec![(fmt.to_string(), bytes.clone())] };
             let last_n = h.iter().rev().find_map(|o| if let Opt::Row(n) = o { Some(*n) } else { None });
             let cls = last_n.map(|n| n_class(&g, n)).unwrap_or("default");
             let outcome = match &res {
@@ -142,7 +144,7 @@ pub fn check(rep: &Report) {
                     for (i, (r, o)) in ranges.iter().zip(h.iter()).enumerate() {
                         if let Err((kind, detail)) = check_read(r, &g, *o) {
                             let c = match o { Opt::Row(n) => n_class(&g, *n), _ => "default" };
-                            rep.fail(&format!("{fmt}/{kind}/{c}{}", if i > 0 { "/after-option-change" } else { "" }), &format!("step {i} under {o:?}: {detail} (history {h:?})"), replay);
+                            rep.fail(&format!("{fmt}/{kind}/{c}{}{}", if i > 0 { "/after-option-change" } else { "" }, if *stale { "/stale-dimension" } else { "" }), &format!("step {i} under {o:?}: {detail} (history {h:?})"), replay);
                             break;
                         }
                     }
@@ -169,7 +171,7 @@ pub fn replay(path: &str) -> i32 {
     let fmt = v["format"].as_str().unwrap().to_string();
     let g = model(v["row_pattern"].as_u64().unwrap() as u32, v["col_offset"].as_u64().unwrap() as u32);
     let h: Vec<Opt> = v["history"].as_array().unwrap().iter().map(|o| { let s = o.as_str().unwrap(); if s.starts_with("Row(") { Opt::Row(s[4..s.len() - 1].parse().unwrap()) } else { Opt::First } }).collect();
-    let bytes = build(&fmt, &g);
+    let bytes = build(&fmt, &g, v["stale_dimension"].as_bool().unwrap_or(false));
     let run = || guarded(|| match fmt.as_str() { "xlsx" => run_history::<Xlsx<_>>(&bytes, &h), "xlsb" => run_history::<Xlsb<_>>(&bytes, &h), "xls" => run_history::<Xls<_>>(&bytes, &h), _ => run_history::<Ods<_>>(&bytes, &h) }.map(|v| v.iter().map(crate::model::sheet::range_digest).collect::<Vec<_>>()));
     let (a, b) = (run(), run());
     if format!("{a:?}") != format!("{b:?}") { eprintln!("MACHINERY: replay not deterministic"); return 2; }
